@@ -178,6 +178,10 @@ def finish(ctx, level, rule, assumptions, explanation=None):
             rc = 1
         if len(lst) > 3:
             print("  (%d more cases violate %s)" % (len(lst) - 3, clause), flush=True)
+    with open(os.path.join(ctx.dir, "violations.json"), "w", encoding="utf-8") as f:
+        json.dump([{"clause": cl, "id": cid, "detail": d, "variant": v, "src": ctx.cases.get(cid, {}).get("src", ""),
+                    "A": ctx.cases.get(cid, {}).get("A"), "B": ctx.cases.get(cid, {}).get("B")}
+                   for cl, cid, d, v in ctx.violations], f, ensure_ascii=False, indent=0)
     cov = {
         "states": max(ctx.states, 0),
         "transitions": max(ctx.transitions, 0),
@@ -645,7 +649,94 @@ def run_c15(ctx):
                   REL_ASSUME)
 
 
-RUNNERS = {"C15": run_c15, "C16": run_c16, "C17": run_c17, "C18": run_c18, "C19": run_c19}
+# ----------------------------------------------------------------------------- Gen (C12-C14)
+
+def gen_programs(ctx, fault, sim_n, fuel_sim, fuel_mc=None, mc_timeout=300):
+    """Runs TLC on spec/Gen.tla (simulation, and optionally exhaustive enumeration with small fuel) and
+    returns the list of derivations (dicts with src, exps, fault)."""
+    import re
+    progs = []
+    stats = {"sim_behaviours": 0, "mc_states": 0, "mc_distinct": 0}
+
+    def harvest(out):
+        n = 0
+        for line in out.splitlines():
+            m = re.match(r'<<"REPLAY", (".*")>>$', line.strip())
+            if m:
+                j = json.loads(json.loads(m.group(1)))
+                progs.append(j)
+                n += 1
+        return n
+
+    cfg = "SPECIFICATION Spec\nCONSTANTS\n  Fuel = %d\n  AllowFault = %s\n  Small = FALSE\nCHECK_DEADLOCK FALSE\n"
+    fl = "TRUE" if fault else "FALSE"
+    for k, fuel in enumerate(fuel_sim):
+        rc, out, wall = common.tlc("Gen", cfg % (fuel, fl), ctx.dir, "gen-sim-%d" % k, workers=1, timeout=600,
+                                   extra_args=["-simulate", "num=%d" % (sim_n // len(fuel_sim)), "-depth", "900",
+                                               "-seed", str(ctx.seed + k)])
+        n = harvest(out)
+        if n == 0:
+            raise ToolError("Gen simulation produced nothing:\n" + out[-2000:])
+        stats["sim_behaviours"] += n
+        m = re.search(r"The number of states generated: (\d+)", out)
+        if m:
+            stats["mc_states"] += int(m.group(1))
+            ctx.states += int(m.group(1))
+            ctx.transitions += int(m.group(1))
+    if fuel_mc is not None:
+        rc, out, wall = common.tlc("Gen", cfg % (fuel_mc, fl) + "CONSTRAINT Bounded\n", ctx.dir, "gen-mc", workers=8,
+                                   timeout=mc_timeout, heap="8g")
+        if "Model checking completed" not in out:
+            raise ToolError("Gen enumeration did not complete:\n" + out[-2000:])
+        harvest(out)
+        st = common.parse_tlc_stats(out)
+        stats["mc_states"], stats["mc_distinct"] = st["states"], st["distinct"]
+        ctx.states += st["distinct"]
+        ctx.transitions += st["states"]
+    return progs, stats
+
+
+def run_gen_prop(ctx):
+    q = ctx.quick()
+    fault = ctx.prop == "C14"
+    progs, stats = gen_programs(ctx, fault, sim_n=(6000 if q else 120000), fuel_sim=[6, 10, 16] if q else [6, 10, 16, 24],
+                                fuel_mc=None)
+    seen = set()
+    for j in progs:
+        src = "".join(j["src"])
+        key = (src, j["fault"]["kind"], j["fault"]["o"])
+        if key in seen:
+            continue
+        if fault and j["fault"]["kind"] in ("", "void"):
+            continue
+        seen.add(key)
+        cid = "g%d" % len(ctx.cases)
+        ctx.cases[cid] = {"id": cid, "src": src, "exps": j["exps"], "fault": j["fault"], "fam": "gen"}
+    ctx.families["gen"] = len(ctx.cases)
+    ctx.extra["generator"] = stats
+    if fault:
+        import collections
+        ctx.extra["fault_kinds"] = dict(collections.Counter(c["fault"]["kind"] for c in ctx.cases.values()))
+    if len(ctx.cases) < 100:
+        raise ToolError("vacuous: generator produced only %d distinct programs" % len(ctx.cases))
+    pick_samples(ctx)
+    cases = list(ctx.cases.values())
+    for variant in ("dbg", "rel"):
+        paths = run_variant(ctx, variant, cases, events=False)
+        mon = common.monitor(ctx.prop, paths, ctx.dir, workers_each=2, parallel=8)
+        judge(ctx, variant, mon)
+        log("[%s] %s: %d records monitored in %.1fs, %d verdict lines" % (
+            ctx.prop, variant, mon["records"], mon["wall"], len(mon["verdicts"])))
+    rule = ("programs are derivations of the construct grammar spec/Gen.tla (DESIGN.md 7.6), produced by TLC: random "
+            "derivations (-simulate, several fuel bounds) and all derivations with a small fuel bound; each carries the "
+            "generator's expectations%s; the real lexer runs on each and TLC evaluates the %s clauses of "
+            "spec/GenProps.tla" % (" and one deletion fault" if fault else "", ctx.prop))
+    return finish(ctx, "model_checking", rule,
+                  ["the grammar is deliberately conservative (DESIGN.md 7.6 and section 12)",
+                   "position tables come from the harness and are re-derived by CertOK"])
+
+
+RUNNERS = {"C12": run_gen_prop, "C13": run_gen_prop, "C14": run_gen_prop, "C15": run_c15, "C16": run_c16, "C17": run_c17, "C18": run_c18, "C19": run_c19}
 
 
 def run(prop, tier, seed, replay=None, keep=False):
